@@ -190,7 +190,43 @@ func genInBound(r *hx.Rand) *big.Int {
 	}
 }
 
+// inputs of the recorded deviation classes (findings/C13.json) are kept rare and confined to the first cases of a run, so
+// that they cannot fill the failure list of the run summary and hide a different failure
+func knownProne(line string) bool {
+	f := strings.Fields(line)
+	var zs []*big.Int
+	op := f[1]
+	for _, s := range f[2:] {
+		if f[0] == "V" {
+			zs = append(zs, parseBig(s[1:]))
+		} else {
+			_, z := mkVal(s)
+			zs = append(zs, z)
+		}
+	}
+	switch {
+	case f[0] == "B" && isCmp(op):
+		return !inBound(zs[0]) || !inBound(zs[1])
+	case op == "SHR" || op == "rsh":
+		return zs[1].Cmp(two64) >= 0
+	case op == "SHL" || op == "lsh":
+		return zs[0].Sign() == 0 && zs[1].Cmp(big.NewInt(256)) > 0
+	case op == "INVERT" || op == "not":
+		return new(big.Int).Add(zs[0], one).Cmp(bound) == 0
+	}
+	return false
+}
+
 func gen(r *hx.Rand, tier string, i int) string {
+	for {
+		line := gen1(r)
+		if !knownProne(line) || (i < 20000 && r.Chance(12)) {
+			return line
+		}
+	}
+}
+
+func gen1(r *hx.Rand) string {
 	switch r.Intn(10) {
 	case 0, 1:
 		return "U " + unaryNames[r.Intn(len(unaryNames))] + " " + pickRepr(r, genInt(r))
